@@ -117,3 +117,99 @@ Print Assumptions C15_clone_refuted_undulator.
 Print Assumptions C15_clone_spacecharge_raises.
 Print Assumptions C15_nonvacuous.
 Print Assumptions C15_classes_ok_refuted.
+
+(* ================================================================ clone() after a HISTORY of assignments
+   (added after seeded changes C15-3/-4).  Model: Ops/CloneHistory.v -- an object is its stored state, public attributes
+   and properties are getter/setter views of it, clone() = constructor applied to the current values of the features. *)
+From Coq Require Import ZArith.
+From Cheetah Require Import Ops.CloneHistory Ops.CloneHistoryProofs.
+
+(* generic: if the constructor rebuilds every (invariant-satisfying) state from the feature values read through the getters,
+   then after ANY list of assignments the clone is the current state: no history can be told apart *)
+Theorem C15_clone_after_history_generic :
+  forall (S A V : Type) (get : A -> S -> V) (set : A -> V -> S -> S) (init : (A -> V) -> S) (copy : V -> V),
+  (forall v, copy v = v) ->
+  (forall k k' : A -> V, (forall a, k a = k' a) -> init k = init k') ->
+  forall inv : S -> Prop,
+  (forall a v s, inv s -> inv (set a v s)) ->
+  (forall s, inv s -> init (fun f => get f s) = s) ->
+  forall (ops : list (A * V)) (s : S), inv s ->
+  init (fun f => copy (get f (fold_left (fun s op => set (fst op) (snd op) s) ops s)))
+  = fold_left (fun s op => set (fst op) (snd op) s) ops s.
+Proof. exact clone_after_history_gen. Qed.
+
+(* every class of the class table that is class_ok: assignments to constructor-settable attributes, then clone *)
+Theorem C15_clone_after_history :
+  forall (V : Type) (dflt : cls_rec -> string -> V) (other : cls_rec -> list (string * V) -> string -> V) (copy : V -> V),
+  (forall v, copy v = v) ->
+  forall (ops : list (string * V)) (e : element V),
+  class_ok (ecls e) = true -> required_passed (ecls e) = true ->
+  (map fst (eattrs e) = settable (ecls e) /\ NoDup (map fst (eattrs e))) ->
+  clone_elem V dflt other copy (fold_left (fun e op => mkel (ecls e) (aupdate V (eattrs e) (fst op) (snd op))) ops e)
+  = Some (fold_left (fun e op => mkel (ecls e) (aupdate V (eattrs e) (fst op) (snd op))) ops e).
+Proof. exact clone_after_history_elem. Qed.
+
+(* ... in particular the clone carries the value assigned last *)
+Theorem C15_clone_sees_last_assignment :
+  forall (V : Type) (dflt : cls_rec -> string -> V) (other : cls_rec -> list (string * V) -> string -> V) (copy : V -> V),
+  (forall v, copy v = v) ->
+  forall (ops : list (string * V)) (e : element V) (p : string) (v : V) (e' : element V),
+  class_ok (ecls e) = true -> required_passed (ecls e) = true -> wf e -> In p (settable (ecls e)) ->
+  clone_elem V dflt other copy (run_elem V (ops ++ [(p, v)]) e) = Some e' -> alookup (eattrs e') p = Some v.
+Proof. exact clone_sees_last_assignment. Qed.
+
+(* RBend: stored angle, dipole_e1, dipole_e2; rbend_e = dipole_e - angle/2 is DERIVED (getter subtracts, setter and constructor
+   add angle/2).  In exact arithmetic ((x - h) + h = x) the clone after any history of assignments through
+   angle / dipole_e1 / dipole_e2 / rbend_e1 / rbend_e2 has the same stored state, hence the same value of all five attributes.
+   (In floating point (x - h) + h is x up to one rounding: finding F80.) *)
+Theorem C15_rbend_clone_after_history :
+  forall (V : Type) (add sub : V -> V -> V) (half : V -> V) (copy : V -> V),
+  (forall v, copy v = v) -> (forall x h, add (sub x h) h = x) ->
+  forall (ops : list (battr * V)) (s : bend V),
+  rbend_init V add half (fun f => copy (bget V sub half f (run (bend V) battr V (bset V add half) ops s)))
+  = run (bend V) battr V (bset V add half) ops s.
+Proof. exact rbend_clone_after_history. Qed.
+
+Theorem C15_dipole_clone_after_history :
+  forall (V : Type) (add sub : V -> V -> V) (half : V -> V) (copy : V -> V),
+  (forall v, copy v = v) ->
+  forall (ops : list (battr * V)) (s : bend V),
+  dipole_init V (fun f => copy (bget V sub half f (run (bend V) battr V (bset V add half) ops s)))
+  = run (bend V) battr V (bset V add half) ops s.
+Proof. exact (fun V add sub half copy H => dipole_clone_after_history V add sub half copy H). Qed.
+
+(* REFUTED for a class that stores a copy of a derived attribute (an RBend remembering rbend_e1/2 "as given"): fresh objects and
+   objects changed through rbend_e1 clone correctly, but after ONE assignment to the underlying angle (resp. dipole_e1) the
+   clone has a different dipole_e1 although the defining feature rbend_e1 compares equal *)
+Theorem C15_cached_derived_attribute_refuted :
+  (forall kw, hclone (cbend Z) battr Z (cget Z) (cbend_init Z Z.add zhalf) (fun v => v) (cbend_init Z Z.add zhalf kw)
+              = cbend_init Z Z.add zhalf kw) /\
+  (forall kw a', zhalf a' <> zhalf (kw Angle) ->
+     let s := cset Z Z.add zhalf Angle a' (cbend_init Z Z.add zhalf kw) in
+     let c := hclone (cbend Z) battr Z (cget Z) (cbend_init Z Z.add zhalf) (fun v => v) s in
+     cget Z DipoleE1 c <> cget Z DipoleE1 s /\ cget Z RbendE1 c = cget Z RbendE1 s) /\
+  (forall kw v, (v <> kw RbendE1 + zhalf (kw Angle))%Z ->
+     let s := cset Z Z.add zhalf DipoleE1 v (cbend_init Z Z.add zhalf kw) in
+     cget Z DipoleE1 (hclone (cbend Z) battr Z (cget Z) (cbend_init Z Z.add zhalf) (fun v => v) s) <> cget Z DipoleE1 s).
+Proof. exact (conj cached_rbend_fresh_ok (conj cached_rbend_refuted_angle cached_rbend_refuted_dipole_e1)). Qed.
+
+(* non-vacuity (units of 2^-10 rad): RBend(angle=200, rbend_e1=50); angle := 320.  The real class: dipole_e1 = 150 on both;
+   the caching class: 150 on the original, 210 on the clone *)
+Example C15_history_nonvacuous :
+  (let kw := fun a => match a with Angle => 200 | RbendE1 => 50 | _ => 0 end in
+   let s := run (bend Z) battr Z zset [(Angle, 320)] (rbend_init Z Z.add zhalf kw) in
+   stored s = [320; 150; 100] /\
+   stored (hclone (bend Z) battr Z zget (rbend_init Z Z.add zhalf) (fun v => v) s) = [320; 150; 100])%Z /\
+  (let kw := fun a => match a with Angle => 200 | RbendE1 => 50 | _ => 0 end in
+   cget Z DipoleE1 (run (cbend Z) battr Z (cset Z Z.add zhalf) [(Angle, 320)] (cbend_init Z Z.add zhalf kw)) = 150 /\
+   cget Z DipoleE1 (hclone (cbend Z) battr Z (cget Z) (cbend_init Z Z.add zhalf) (fun v => v)
+                      (run (cbend Z) battr Z (cset Z Z.add zhalf) [(Angle, 320)] (cbend_init Z Z.add zhalf kw))) = 210)%Z.
+Proof. exact (conj rbend_witness cached_rbend_witness). Qed.
+
+Print Assumptions C15_clone_after_history_generic.
+Print Assumptions C15_clone_after_history.
+Print Assumptions C15_clone_sees_last_assignment.
+Print Assumptions C15_rbend_clone_after_history.
+Print Assumptions C15_dipole_clone_after_history.
+Print Assumptions C15_cached_derived_attribute_refuted.
+Print Assumptions C15_history_nonvacuous.
